@@ -443,21 +443,21 @@ impl BiscuitBuilder {
     }
 
     fn add_fact(&mut self, fact: &str) -> Result<(), biscuit_auth::error::Token> {
-        let mut inner = self.0.take().unwrap();
+        let mut inner = self.0.clone().unwrap();
         inner = inner.fact(fact)?;
         self.0 = Some(inner);
         Ok(())
     }
 
     fn add_rule(&mut self, rule: &str) -> Result<(), biscuit_auth::error::Token> {
-        let mut inner = self.0.take().unwrap();
+        let mut inner = self.0.clone().unwrap();
         inner = inner.rule(rule)?;
         self.0 = Some(inner);
         Ok(())
     }
 
     fn add_check(&mut self, check: &str) -> Result<(), biscuit_auth::error::Token> {
-        let mut inner = self.0.take().unwrap();
+        let mut inner = self.0.clone().unwrap();
         inner = inner.check(check)?;
         self.0 = Some(inner);
         Ok(())
@@ -813,21 +813,21 @@ impl BlockBuilder {
     }
 
     fn add_fact(&mut self, fact: &str) -> Result<(), biscuit_auth::error::Token> {
-        let mut inner = self.0.take().unwrap();
+        let mut inner = self.0.clone().unwrap();
         inner = inner.fact(fact)?;
         self.0 = Some(inner);
         Ok(())
     }
 
     fn add_rule(&mut self, rule: &str) -> Result<(), biscuit_auth::error::Token> {
-        let mut inner = self.0.take().unwrap();
+        let mut inner = self.0.clone().unwrap();
         inner = inner.rule(rule)?;
         self.0 = Some(inner);
         Ok(())
     }
 
     fn add_check(&mut self, check: &str) -> Result<(), biscuit_auth::error::Token> {
-        let mut inner = self.0.take().unwrap();
+        let mut inner = self.0.clone().unwrap();
         inner = inner.check(check)?;
         self.0 = Some(inner);
         Ok(())
@@ -997,28 +997,28 @@ pub unsafe extern "C" fn block_builder_free(_builder: Option<Box<BlockBuilder>>)
 
 impl AuthorizerBuilder {
     fn add_fact(&mut self, fact: &str) -> Result<(), biscuit_auth::error::Token> {
-        let mut inner = self.0.take().unwrap();
+        let mut inner = self.0.clone().unwrap();
         inner = inner.fact(fact)?;
         self.0 = Some(inner);
         Ok(())
     }
 
     fn add_rule(&mut self, rule: &str) -> Result<(), biscuit_auth::error::Token> {
-        let mut inner = self.0.take().unwrap();
+        let mut inner = self.0.clone().unwrap();
         inner = inner.rule(rule)?;
         self.0 = Some(inner);
         Ok(())
     }
 
     fn add_check(&mut self, check: &str) -> Result<(), biscuit_auth::error::Token> {
-        let mut inner = self.0.take().unwrap();
+        let mut inner = self.0.clone().unwrap();
         inner = inner.check(check)?;
         self.0 = Some(inner);
         Ok(())
     }
 
     fn add_policy(&mut self, policy: &str) -> Result<(), biscuit_auth::error::Token> {
-        let mut inner = self.0.take().unwrap();
+        let mut inner = self.0.clone().unwrap();
         inner = inner.policy(policy)?;
         self.0 = Some(inner);
         Ok(())
